@@ -75,6 +75,11 @@ class Ctx:
     def finding(self, key, what, replay, found_input=True):
         self.findings.append(Finding(key, what, replay, found_input))
 
+    def unknown_findings(self):
+        """findings that are not listed in known_findings.json (a listed finding must not hide a broken proof or correspondence)"""
+        known = {(k["property"], k["key"]) for k in known_findings().get("known", [])}
+        return [f for f in self.findings if (self.prop, f.key) not in known]
+
     def elapsed(self):
         return time.time() - self.t0
 
